@@ -30,7 +30,42 @@ def _div(a, b, strict):
     return out if out.shape else float(out)
 
 
-def evaluate(node, env, strict=True):
+def _near_not_at(x, info):
+    """x (a distance to a discontinuity, in units of the operands) is tiny but not exactly zero somewhere: a last-bit
+    difference between two correct floating-point evaluations can then land on either side."""
+    x = np.abs(np.asarray(x, dtype=float))
+    tol = 1e-9 * max(1.0, info.get("scale", 1.0))
+    return bool(np.any((x > 0) & (x <= tol)))
+
+
+def evaluate(node, env, strict=True, info=None):
+    """info (optional dict) collects 'scale' = the largest magnitude of any intermediate value (cancellation makes the
+    absolute error of a result proportional to it) and 'fragile' = some discontinuous operation (floor, //, %, a
+    comparison) was evaluated within rounding distance of, but not exactly at, its discontinuity."""
+    if info is None:
+        return _evaluate(node, env, strict, None)
+    v = _evaluate(node, env, strict, info)
+    return v
+
+
+def _note(v, info):
+    if info is not None:
+        with np.errstate(all="ignore"):
+            a = np.abs(np.asarray(v, dtype=float))
+            a = a[np.isfinite(a)]
+            if a.size:
+                info["scale"] = max(info.get("scale", 0.0), float(a.max()))
+    return v
+
+
+def _evaluate(node, env, strict, info):
+    return _note(_evaluate_inner(node, env, strict, info), info)
+
+
+def _evaluate_inner(node, env, strict, info):
+    def evaluate(n, e, s):  # noqa - recursion goes through the noting wrapper
+        return _evaluate(n, e, s, info)
+
     if isinstance(node, str):
         node = parse(node)
     if isinstance(node, ast.Expression):
@@ -68,10 +103,18 @@ def evaluate(node, env, strict=True):
             if isinstance(node.op, ast.FloorDiv):
                 if np.any(np.asarray(b) == 0):
                     raise DontCare()
+                if info is not None:
+                    q = np.asarray(a, dtype=float) / np.asarray(b, dtype=float)
+                    if _near_not_at((q - np.round(q)) * np.abs(np.asarray(b, dtype=float)), info) or _near_not_at(np.where(np.round(q) == q, 0.0, 0.0) + (np.asarray(a, dtype=float) - np.round(q) * np.asarray(b, dtype=float)), info):
+                        info["fragile"] = True
                 return np.floor_divide(a, b)
             if isinstance(node.op, ast.Mod):
                 if np.any(np.asarray(b) == 0):
                     raise DontCare()
+                if info is not None:
+                    q = np.asarray(a, dtype=float) / np.asarray(b, dtype=float)
+                    if _near_not_at(np.asarray(a, dtype=float) - np.round(q) * np.asarray(b, dtype=float), info):
+                        info["fragile"] = True
                 return np.mod(a, b)
         raise DontCare()
     if isinstance(node, ast.Compare):
@@ -79,6 +122,8 @@ def evaluate(node, env, strict=True):
             raise DontCare()
         a = evaluate(node.left, env, strict)
         b = evaluate(node.comparators[0], env, strict)
+        if info is not None and _near_not_at(np.asarray(a, dtype=float) - np.asarray(b, dtype=float), info):
+            info["fragile"] = True
         f = {ast.Lt: np.less, ast.LtE: np.less_equal, ast.Gt: np.greater, ast.GtE: np.greater_equal, ast.Eq: np.equal, ast.NotEq: np.not_equal}[type(node.ops[0])]
         return f(a, b) * 1.0
     if isinstance(node, ast.Call):
@@ -102,6 +147,8 @@ def evaluate(node, env, strict=True):
                     raise DontCare()
                 return np.sqrt(args[0])
             if name == "floor":
+                if info is not None and _near_not_at(np.asarray(args[0], dtype=float) - np.round(np.asarray(args[0], dtype=float)), info):
+                    info["fragile"] = True
                 return np.floor(args[0])
             if name == "cos":
                 return np.cos(args[0])
